@@ -13,6 +13,7 @@ import Receptor.Drive.Proto
 import Receptor.Drive.Work
 import Receptor.Drive.Status
 import Receptor.Drive.Ctl
+import Receptor.Drive.Results
 /-! Line-protocol driver: one JSON request per line `{"e":engine,"op":op,"a":args,"r":impl-observation}`,
 one JSON reply per line `{"m":model-result,"prop":true|false|null,"why":…}` or `{"bad-op":…}`. -/
 open Lean Receptor.Drive
@@ -36,6 +37,7 @@ def dispatch (e op : String) (a r : Json) : Except String Reply :=
   | "sig" => Receptor.Drive.Work.sigHandle op a r
   | "status" => Receptor.Drive.Status.handle op a r
   | "ctl" => Receptor.Drive.Ctl.handle op a r
+  | "results" => Receptor.Drive.Results.handle op a r
   | _ => throw s!"bad-op unknown engine {e}"
 
 def handleLine (line : String) : String :=
